@@ -785,6 +785,31 @@ func (g *c17Gen) generate(s *zz.Session, thorough bool) {
 	for i := 0; i < nh/5+1; i++ {
 		g.randomHistory(s, fmt.Sprintf("outside-contract-%d", i), sizes[(i+2)%len(sizes)], nops/4, true)
 	}
+	// a file of several 64 KiB blocks: short reads that cross block-size multiples (4 KiB .. 128 KiB), each on a cold
+	// cache and again after the neighbouring ranges were read
+	{
+		size := int64(200003)
+		file := g.rng.Bytes(int(size))
+		for i := range file {
+			if file[i] == 0 {
+				file[i] = byte(1 + i%255)
+			}
+		}
+		g.emit("case directed block-boundaries size=%d", size)
+		g.emit("new %s", zz.Hex(file))
+		for _, b := range []int64{4096, 16384, 32768, 65536, 131072, 196608} {
+			for _, d := range [][2]int64{{-1, 2}, {-10, 20}, {-3000, 6000}, {0, 1}, {-1, 1}, {-40000, 50000}} {
+				a, ln := b+d[0], d[1]
+				if a < 0 || a+ln > size {
+					continue
+				}
+				g.emit("get %d %d ok live", a, ln)
+				s.Count("directed-block-boundary-reads")
+			}
+		}
+		g.emit("get %d %d ok live", int64(0), size)
+		g.emit("get %d %d ok live", int64(65530), int64(12))
+	}
 }
 
 // ---------------------------------------------------------------- concurrent part (oracle only)
